@@ -86,12 +86,15 @@ FAIL_CLASSES = {"embedded-pointer-cycle": {"fatal-stack-overflow"},
                 "time-field": {"reflect.Value.Addr_of_unaddressable_valu", "empty-output"}}
 
 
-def as_implemented(b, api, loc):
+def as_implemented(b, api, loc, dash_key=False):
     """Deviations the trace specification classifies as one of the as-implemented readings (root causes that are recorded
     as known findings) are keyed by the root cause instead of by encoder and cell: one known entry per root cause. The
     classification is the specification's (trigger / key-collision context / as-implemented:* verdicts); anything else in
     the same cell keeps its per-encoder key and stays a violation."""
     d, w = b["d"], js(b["w"])
+    if b["kind"] == "fails" and msg_class(b["m"]) == "sen-unparsable" and b["o"][0] == "tags" and dash_key:
+        # as-implemented reading: the tag `json:"-,"` names the key "-", which the SEN writers emit bare and sen.Parse does not read
+        return "(SEN writers)", "as-implemented|sen-bare-dash-key"
     if b["kind"] == "fails" and d["ctx"] in FAIL_CLASSES and msg_class(b["m"]) in FAIL_CLASSES[d["ctx"]]:
         if d["ctx"] in ("nil-embedded-pointer", "embedded-pointer-cycle"):
             return "(any encoder)", "as-implemented|fails|" + d["ctx"]
@@ -167,7 +170,7 @@ def judge(ctx, cases, masks="one"):
             continue
         loc = locus_of(b)
         for api in b["as"]:
-            a2, l2 = as_implemented(b, api, loc)
+            a2, l2 = as_implemented(b, api, loc, dash_key=any(f.get("t") == "dashc" for f in case.get("f", [])))
             recs.append({"api": a2, "kind": b["kind"], "locus": l2, "witness": witness_of(case), "case": case,
                          "detail": {"w": b["w"], "field": b["d"], "opts": b["o"], "m": b["m"], "encoder": api}})
     if res["nbad"] > len(res["bad"]):
